@@ -283,7 +283,13 @@ func (f *Frame) callStatic(v ssa.Value, fn *ssa.Function, argVals []ssa.Value, a
 		return
 	}
 	name := f.p.fname(fn)
-	f.atCall(fn.Name(), pos)
+	{
+		var ats []types.Type
+		for _, prm := range fn.Params {
+			ats = append(ats, prm.Type())
+		}
+		f.atCall(fn.Name(), pos, args, ats)
+	}
 	con := f.p.contracts[name]
 	if con != nil && con.Pure {
 		f.setResults(v, []T{f.pureApp(name, fn.Signature, args)})
@@ -665,7 +671,7 @@ func (f *Frame) pureApp(name string, sig *types.Signature, args []T) T {
 
 // atCall: class `call` obligations for the caller's `atcall` clauses naming this callee, in the caller's scope and state
 // immediately before the call (then assumed, like an assert statement).
-func (f *Frame) atCall(callee string, pos token.Pos) {
+func (f *Frame) atCall(callee string, pos token.Pos, args []T, argTypes []types.Type) {
 	if f.con == nil || f.oblPfx != "" {
 		return
 	}
@@ -674,6 +680,13 @@ func (f *Frame) atCall(callee string, pos token.Pos) {
 			continue
 		}
 		tr := f.translator(f.cur, nil, f.st, nil)
+		// arg0, arg1, ...: the actual arguments of the call (arg0 is the receiver of a method)
+		tr.env = map[string]tv{}
+		for i := range args {
+			if i < len(argTypes) {
+				tr.env[fmt.Sprintf("arg%d", i)] = tv{args[i], argTypes[i]}
+			}
+		}
 		nm := fmt.Sprintf("%s.%s", callee, clauseName(ac, k))
 		o := f.obligeNamed("call", fmt.Sprintf("%s#%d", nm, f.callOrdinal(callee, pos)), pos, tr.boolExpr(ac.Expr), ac.Props)
 		f.addUses(o, f.con.Uses, tr)
@@ -707,7 +720,15 @@ func (f *Frame) callOrdinal(callee string, pos token.Pos) int {
 func (f *Frame) doInvoke(v ssa.Value, c *ssa.CallCommon, pos token.Pos) {
 	recv := f.val(c.Value)
 	f.oblige("panic", "nil-iface-call("+c.Method.Name()+")", pos, Not(Eq(App(SInt, "tag", recv), Zero)))
-	f.atCall(c.Method.Name(), pos)
+	{
+		as := []T{recv}
+		ats := []types.Type{c.Value.Type()}
+		for _, a := range c.Args {
+			as = append(as, f.val(a))
+			ats = append(ats, a.Type())
+		}
+		f.atCall(c.Method.Name(), pos, as, ats)
+	}
 	args := []T{recv}
 	for _, a := range c.Args {
 		args = append(args, f.val(a))
